@@ -2,21 +2,25 @@
 # Run the repository's pinned test suite (guard OFF) and compare with /root/.vp/BASELINE.json stable_pass.
 # usage: tools/baseline.sh [repo_dir]
 repo="${1:-/repo}"
+shift 2>/dev/null
+sel=("$@")   # optional: test files (relative to the repo) to restrict the run and the comparison to
 out="$(mktemp -d)"
 trap 'rm -rf "$out"' EXIT
 unset STATIC_FRAME_VERIF
 # keep hypothesis from recording new failing examples into /repo/.hypothesis (it would make random finds permanent)
 cp -r "$repo/.hypothesis" "$out/hyp" 2>/dev/null; export HYPOTHESIS_STORAGE_DIRECTORY="$out/hyp"
-cd "$repo" && /venv/bin/python -m pytest -q -p no:cacheprovider --timeout=900 --continue-on-collection-errors -n 12 --junitxml="$out/r.xml" >"$out/log" 2>&1
-/venv/bin/python - "$out/r.xml" <<'PY'
+cd "$repo" && /venv/bin/python -m pytest -q -p no:cacheprovider --timeout=900 --continue-on-collection-errors -n 12 --junitxml="$out/r.xml" "${sel[@]}" >"$out/log" 2>&1
+/venv/bin/python - "$out/r.xml" "${sel[@]}" <<'PY'
 import json, sys, xml.etree.ElementTree as ET
 base = json.load(open('/root/.vp/BASELINE.json'))
 passed = set()
 for tc in ET.parse(sys.argv[1]).getroot().iter('testcase'):
     if not any(ch.tag in ('failure', 'error', 'skipped') for ch in tc):
         passed.add(f"{tc.get('classname')}::{tc.get('name')}")
-missing = [t for t in base['stable_pass'] if t not in passed]
-print(f'stable_pass={len(base["stable_pass"])} passed_now={len(passed)} regressions={len(missing)}')
+sel = [(a[:-3] if a.endswith('.py') else a.rstrip('/')).replace('/', '.') for a in sys.argv[2:]]
+stable = [t for t in base['stable_pass'] if not sel or any(t.startswith(m + '.') for m in sel)]
+missing = [t for t in stable if t not in passed]
+print(f'stable_pass={len(stable)} passed_now={len(passed)} regressions={len(missing)}')
 for t in missing[:40]:
     print('  REGRESSION', t)
 sys.exit(1 if missing else 0)
